@@ -148,7 +148,18 @@ def src_lines(path):
 DERIVES = {"Clone", "PartialEq", "Eq", "Hash", "Debug", "Default", "PartialOrd", "Ord", "Serialize", "Deserialize", "Copy", "Error"}
 
 
+_sg_cache = {}
+
+
 def strip_generics(t):
+    r = _sg_cache.get(t)
+    if r is None:
+        r = _strip_generics(t)
+        _sg_cache[t] = r
+    return r
+
+
+def _strip_generics(t):
     """`a::b::Foo<X, Y>` -> `Foo`; keeps `&`, tuples etc. untouched otherwise"""
     t = t.strip()
     t = re.sub(r"::<", "<", t)
